@@ -19,7 +19,8 @@ A particle set is a Gaussian mixture (one belief `(mean, cov)` and one log-weigh
 Parameters, with the contract the theorems assume (BFL/Props/C08.lean):
   * `gp`, `gc`   the wrapped Gaussian prediction / correction, a function of the input mixture and of
                  the previous content of the output mixture (some steps leave parts of it unwritten);
-  * `sq i`       the square-root factor the code obtains from Eigen's LDLᵀ (`Pᵀ L √D`): `S Sᵀ = P`;
+  * `sq i`       the square-root factor the code obtains from Eigen's LDLᵀ (`Pᵀ L √max(D,0)`, pivots
+                 clamped at zero since fix 5d4e99d): `S Sᵀ = P`;
   * `z i`        the standard-normal draws of particle `i` (`mean.size()` draws per particle, in
                  particle order, from `std::normal_distribution`);
   * `inv`        Eigen's `.inverse()`;
